@@ -5,7 +5,7 @@ import ast
 from typing import Dict, List, Optional, Set, Tuple
 
 from .model import AnalysisError, FuncInfo, Model
-from .util import dotted, only_raises, raised_name, walk_no_nested
+from .util import norm,  dotted, only_raises, raised_name, walk_no_nested
 
 VISITOR = "apischema.visitor.Visitor"
 ABSTRACT_HOLDERS = (
@@ -101,6 +101,50 @@ def called_hooks(model: Model, cls_q: str, entries=("visit", "visit_with_conv"))
     return out
 
 
+def _always_exits(stmts) -> bool:
+    if not stmts:
+        return False
+    last = stmts[-1]
+    if isinstance(last, (ast.Return, ast.Raise)):
+        return True
+    if isinstance(last, ast.If):
+        return bool(last.orelse) and _always_exits(last.body) and _always_exits(last.orelse)
+    if isinstance(last, (ast.With, ast.AsyncWith)):
+        # `with suppress(...)` may swallow the exception raised before the return
+        swallowing = any("suppress" in norm(i.context_expr) for i in last.items)
+        return not swallowing and _always_exits(last.body)
+    if isinstance(last, ast.Try):
+        if last.finalbody and _always_exits(last.finalbody):
+            return True
+        main = _always_exits(last.orelse) if last.orelse else _always_exits(last.body)
+        return main and all(_always_exits(h.body) for h in last.handlers)
+    if isinstance(last, (ast.For, ast.AsyncFor, ast.While)) and last.orelse:
+        # loop ... else: the else block runs unless the loop is left by `break`
+        has_break = any(isinstance(b, ast.Break) for st in last.body for b in ast.walk(st) if not isinstance(st, (ast.FunctionDef, ast.ClassDef)))
+        if not has_break:
+            return _always_exits(last.orelse)
+    if isinstance(last, ast.While) and isinstance(last.test, ast.Constant) and last.test.value is True:
+        return not any(isinstance(b, ast.Break) for b in ast.walk(last))
+    if hasattr(ast, "Match") and isinstance(last, ast.Match):
+        return all(_always_exits(c.body) for c in last.cases) and any(isinstance(c.pattern, ast.MatchAs) and c.pattern.pattern is None for c in last.cases)
+    return False
+
+
+def falls_off(fn):
+    """last statement of a path that leaves a value-returning function without return / raise, or None"""
+    from .util import walk_no_nested
+    valued = any(isinstance(r, ast.Return) and r.value is not None and not (isinstance(r.value, ast.Constant) and r.value.value is None) for r in walk_no_nested(fn))
+    is_gen = any(isinstance(y, (ast.Yield, ast.YieldFrom)) for y in walk_no_nested(fn))
+    # a bare `return` marks a procedure (its `return f(...)` are tail calls of procedures)
+    bare = any(isinstance(r, ast.Return) and (r.value is None or (isinstance(r.value, ast.Constant) and r.value.value is None)) for r in walk_no_nested(fn))
+    if not valued or is_gen or bare:
+        return None
+    body = list(fn.body)
+    if _always_exits(body):
+        return None
+    return body[-1]
+
+
 def totality(ctx, rule: str, cls_q: str, allowed_rejections: Dict[str, str] = None, entries=("visit", "visit_with_conv")):
     """Every hook the class can dispatch to is implemented (or a named rejection)."""
     model = ctx.model
@@ -117,7 +161,13 @@ def totality(ctx, rule: str, cls_q: str, allowed_rejections: Dict[str, str] = No
         short_cls = cls_q.split(".")[-1]
         construct = f"{short_cls}.{hook}"
         if kind == "implemented":
-            ctx.ok(rule, construct, f"implemented by {impl.qualname}", where=impl.loc)
+            hole = falls_off(impl.node)
+            if hole is not None:
+                ctx.fail(rule, construct + ":returns", hole,
+                         f"{impl.qualname} returns a value on some paths but can also fall off its end after `{norm(hole)[:60]}` (implicit None): the type is compiled to None and fails later with AttributeError",
+                         impl.module.relpath, getattr(hole, "lineno", impl.node.lineno))
+            else:
+                ctx.ok(rule, construct, f"implemented by {impl.qualname}", where=impl.loc)
         elif kind.startswith("rejects:") and hook in allowed_rejections:
             ctx.ok(rule, construct, f"declared rejection ({kind[8:]}): {allowed_rejections[hook]}", where=impl.loc)
         else:
@@ -125,4 +175,16 @@ def totality(ctx, rule: str, cls_q: str, allowed_rejections: Dict[str, str] = No
                      f"{short_cls} can dispatch to hook `{hook}` (called from {sorted(set(callers))[:2]}) but its MRO-resolved implementation "
                      f"{impl.qualname if impl else '-'} is {kind}: types reaching this hook crash with NotImplementedError / are unsupported",
                      impl.module.relpath if impl else "", impl.node.lineno if impl else 0)
+    # helper methods of the visitor (discriminate, _visited_union, ...) are held to the same exit discipline
+    seen = {q for q, _ in matrix.values() if q}
+    for c in model.mro(cls_q):
+        for name, fi in model.classes[c].methods.items():
+            if fi.qualname in seen or model.find_method(cls_q, name) is not fi:
+                continue
+            seen.add(fi.qualname)
+            hole = falls_off(fi.node)
+            if hole is not None:
+                ctx.fail(rule, f"{cls_q.split('.')[-1]}.{name}:returns", hole,
+                         f"{fi.qualname} returns a value on some paths but can also fall off its end after `{norm(hole)[:60]}` (implicit None)",
+                         fi.module.relpath, getattr(hole, "lineno", fi.node.lineno))
     return matrix
